@@ -112,15 +112,16 @@ Section UnderInv.
 
   (* state readers *)
   Definition reader_of (id : block_id) (b : block) : reader :=
-    {| r_kind := if is_latest id then RdHead else RdHist; r_state := b_state b; r_classes := b_classes b |}.
+    {| r_kind := if is_latest id then RdHead else RdHist; r_state := b_state b; r_num := b_number b;
+       r_cls := db_classes d; r_log := db_sthist d |}.
 
   Lemma hist_reader_spec : forall n,
     hist_reader_at d n = option_map (reader_of (Number n)) (block_at (w_chain w) n).
   Proof.
     intros n. unfold hist_reader_at. rewrite (R_blocks _ _ HR).
     destruct (block_at (w_chain w) n) as [b|] eqn:E; [|reflexivity].
-    apply block_at_In in E. destruct E as [Hin _].
-    rewrite (R_hashix _ _ HR), (block_by_hash_of_In _ Hwf b Hin). reflexivity.
+    apply block_at_In in E. destruct E as [Hin Hn].
+    rewrite (R_hashix _ _ HR), (block_by_hash_of_In _ Hwf b Hin). simpl. unfold reader_of. simpl. rewrite Hn. reflexivity.
   Qed.
 
   Lemma state_by_id_spec : forall be id, id <> Hash 0 ->
@@ -157,6 +158,15 @@ Section Handlers.
     h_block_with_tx_hashes d id = spec_answer w (RBlockWithTxHashes id).
   Proof.
     intros id. unfold h_block_with_tx_hashes. simpl. unfold with_block.
+    rewrite (block_by_id_resolve w d Hwf HR).
+    destruct (resolve w id) as [b|] eqn:E; [|reflexivity].
+    rewrite (blocks_of_In w d Hwf HR b (resolve_In w id b E)), status_finality, (R_l1 _ _ HR). reflexivity.
+  Qed.
+
+  Lemma h_block_with_txs_ok : forall id,
+    h_block_with_txs d id = spec_answer w (RBlockWithTxs id).
+  Proof.
+    intros id. unfold h_block_with_txs. simpl. unfold with_block.
     rewrite (block_by_id_resolve w d Hwf HR).
     destruct (resolve w id) as [b|] eqn:E; [|reflexivity].
     rewrite (blocks_of_In w d Hwf HR b (resolve_In w id b E)), status_finality, (R_l1 _ _ HR). reflexivity.
@@ -270,6 +280,32 @@ Section Handlers.
     - destruct v; try reflexivity. destruct (is_latest id); simpl; try rewrite Ec; reflexivity.
   Qed.
 
+  (* ContractStorageLastUpdatedBlock on the reader of the resolved block = the highest block of the chain at or
+     below it that writes the slot *)
+  Lemma rd_last_update_spec : forall id b a k, resolve w id = Some b ->
+    rd_last_update (reader_of d id b) a k = last_write (w_chain w) a k (b_number b).
+  Proof.
+    intros id b a k Hres. unfold rd_last_update. simpl. rewrite (R_sthist _ _ HR).
+    destruct (is_latest id) eqn:El.
+    - destruct id; try discriminate. simpl in Hres.
+      destruct (w_chain w) as [|x r] eqn:Ec; simpl in Hres; [discriminate|]. inversion Hres; subst x.
+      rewrite <- Ec in *. rewrite (last_logged_unbounded _ a k (b_number b)).
+      + apply last_logged_chain_log. exact Hwf.
+      + intros e He. pose proof (chain_log_lt _ Hwf e He) as Hlt. rewrite Ec in Hlt, Hwf.
+        destruct Hwf as [Hn _]. simpl length in Hlt. lia.
+    - apply last_logged_chain_log. exact Hwf.
+  Qed.
+
+  Lemma h_storage_at_lu_ok : forall be id a k, id <> Hash 0 ->
+    h_storage_at_lu be d id a k = spec_answer w (RStorageAtLU id a k).
+  Proof.
+    intros be id a k Hz. unfold h_storage_at_lu. rewrite (h_storage_at_ok V10 be id a k Hz).
+    rewrite (state_by_id_spec w d Hwf HR be id Hz). simpl. unfold with_block, with_contract.
+    destruct (resolve w id) as [b|] eqn:Er; simpl; [|reflexivity].
+    destruct (alookup a (b_state b)) as [cs|]; [|reflexivity].
+    rewrite (rd_last_update_spec id b a k Er). reflexivity.
+  Qed.
+
   Lemma h_nonce_ok : forall be id a, id <> Hash 0 -> h_nonce be d id a = spec_answer w (RNonce id a).
   Proof.
     intros be id a Hz. simpl. unfold h_nonce, with_block, with_contract.
@@ -285,20 +321,42 @@ Section Handlers.
     destruct (resolve w id) as [b|]; reflexivity.
   Qed.
 
-  Lemma h_class_ok : forall be id ch, id <> Hash 0 -> h_class be d id ch = spec_answer w (RClass id ch).
+  (* the class a reader of the resolved block sees = the class map of that block, for every class hash that no
+     reverted block had introduced without declaring it *)
+  Lemma rd_class_spec : forall id b ch, resolve w id = Some b -> mem ch (w_orphans w) = false ->
+    rd_class (reader_of d id b) ch = alookup ch (b_classes b).
   Proof.
-    intros be id ch Hz. simpl. unfold h_class, with_block.
-    rewrite (state_by_id_spec w d Hwf HR be id Hz).
-    destruct (resolve w id) as [b|]; reflexivity.
+    intros id b ch Hres Ho. pose proof (resolve_In w id b Hres) as Hin.
+    destruct (class_facts (w_chain w) Hwf) as [C1 [_ C3]].
+    rewrite (C3 b Hin ch). unfold rd_class, class_visible. simpl. rewrite (R_classes _ _ HR ch Ho).
+    destruct (class_decl (w_chain w) ch) as [[a df]|] eqn:Ed; [|reflexivity].
+    specialize (C1 ch a df Ed).
+    destruct (is_latest id) eqn:El.
+    - destruct id; try discriminate. simpl in Hres.
+      destruct (w_chain w) as [|x r] eqn:Ec; simpl in Hres; [discriminate|]. inversion Hres; subst x.
+      destruct Hwf as [Hn _]. simpl length in C1.
+      destruct (a <=? b_number b) eqn:E; [reflexivity|]. lia.
+    - destruct (b_number b <? a) eqn:E1; destruct (a <=? b_number b) eqn:E2; try reflexivity; lia.
   Qed.
 
-  Lemma h_class_at_ok : forall be id a, id <> Hash 0 -> h_class_at be d id a = spec_answer w (RClassAt id a).
+  Lemma h_class_ok : forall be id ch, id <> Hash 0 -> mem ch (w_orphans w) = false ->
+    h_class be d id ch = spec_answer w (RClass id ch).
   Proof.
-    intros be id a Hz. unfold h_class_at. rewrite (h_class_hash_at_ok be id a Hz).
+    intros be id ch Hz Ho. simpl. unfold h_class, with_block.
+    rewrite (state_by_id_spec w d Hwf HR be id Hz).
+    destruct (resolve w id) as [b|] eqn:Er; simpl; [|reflexivity].
+    rewrite (rd_class_spec id b ch Er Ho). reflexivity.
+  Qed.
+
+  Lemma h_class_at_ok : forall be id a, id <> Hash 0 ->
+    (forall b cs, resolve w id = Some b -> alookup a (b_state b) = Some cs -> mem (c_class cs) (w_orphans w) = false) ->
+    h_class_at be d id a = spec_answer w (RClassAt id a).
+  Proof.
+    intros be id a Hz Ho. unfold h_class_at. rewrite (h_class_hash_at_ok be id a Hz).
     simpl. unfold with_block, with_contract.
     destruct (resolve w id) as [b|] eqn:Er; [|reflexivity].
-    destruct (alookup a (b_state b)) as [cs|]; [|reflexivity].
-    rewrite (h_class_ok be id (c_class cs) Hz). simpl. unfold with_block. rewrite Er.
-    destruct (mem (c_class cs) (b_classes b)); reflexivity.
+    destruct (alookup a (b_state b)) as [cs|] eqn:Ea; [|reflexivity].
+    rewrite (h_class_ok be id (c_class cs) Hz (Ho b cs eq_refl Ea)). simpl. unfold with_block. rewrite Er.
+    destruct (alookup (c_class cs) (b_classes b)); reflexivity.
   Qed.
 End Handlers.
